@@ -1,5 +1,6 @@
 import Driver.Util
 import CRModel.Assign
+import CRModel.AssignGeo
 open Lean CR.Drv CR.Assign
 
 namespace CR.Drv.C07
@@ -92,6 +93,66 @@ def runOps (E : Env) (show_ : St → Json) : St → List Op → List Json
     | .ok s' => okJ (show_ s') :: runOps E show_ s' ops
     | .error e => [errJ e]
 
+/-! ### op `geo`: the lookups computed by the composed model (index scan + exact predicates + placement) -/
+
+def rptOf (j : Json) : P CR.Rigid.Pt := do
+  match ← asArr j with
+  | [x, y] => pure ⟨← asRat x, ← asRat y⟩
+  | _ => throw "point: expected [x, y]"
+
+def gptOf (j : Json) : P CR.Geom.Pt := do
+  match ← asArr j with
+  | [x, y] => pure ⟨← asRat x, ← asRat y⟩
+  | _ => throw "point: expected [x, y]"
+
+partial def rshapeOf (j : Json) : P CR.Rigid.Shape := do
+  match ← getStr j "k" with
+  | "rect" => pure (.rect (← getRat j "l") (← getRat j "w") (← rptOf (← field j "c")) (← getRat j "o"))
+  | "circ" => pure (.circ (← getRat j "r") (← rptOf (← field j "c")))
+  | "poly" => pure (.poly (← getList rptOf j "v"))
+  | "group" => pure (.group (← getList rshapeOf j "s"))
+  | k => throw s!"unknown shape kind {k}"
+
+/-- one (obstacle, time step): local shape, position, orientation -/
+structure StepJ where
+  o : Id
+  t : T
+  shape : CR.Rigid.Shape
+  pos : CR.Rigid.Pt
+  ori : Rat
+
+def stepOf (j : Json) : P StepJ := do
+  pure { o := ← getInt j "o", t := ← getInt j "t", shape := ← rshapeOf (← field j "shape"),
+         pos := ← rptOf (← field j "pos"), ori := ← getRat j "ori" }
+
+def trigOf (j : Json) : P (Rat × Rat × Rat) := do
+  match ← asArr j with
+  | [a, c, s] => pure (← asRat a, ← asRat c, ← asRat s)
+  | _ => throw "trig: expected [angle, cos, sin]"
+
+def laneletOf (j : Json) : P (Int × List CR.Geom.Pt) := do
+  pure (← getInt j "id", ← getList gptOf j "ring")
+
+def geoHandle (a : Json) : P Json := do
+  let lanes ← getList laneletOf a "lanelets"
+  let steps ← getList stepOf a "steps"
+  let table ← getList trigOf a "trig"
+  let tol ← getRat a "tol"
+  let tau ← getRat a "tau"
+  let find (x : Rat) : Rat × Rat := ((table.find? (fun e => e.1 = x)).map (·.2)).getD (1, 0)
+  let tr : Trig := { cos := fun x => (find x).1, sin := fun x => (find x).2, τ := tau }
+  let stepAt (o : Id) (t : T) : Option StepJ := steps.find? (fun e => e.o = o ∧ e.t = t)
+  let D : ObsData :=
+    { kind := fun _ => .dynNone, t0 := fun _ => 0, len := fun _ => 0
+      shape := fun o t => ((stepAt o t).map (·.shape)).getD (.group [])
+      pos := fun o t => ((stepAt o t).map (·.pos)).getD ⟨0, 0⟩
+      ori := fun o t => ((stepAt o t).map (·.ori)).getD 0 }
+  -- `LaneletNetwork.create_from_lanelet_list`: one polygon object per lanelet
+  let ls : List CR.Index.Lanelet := (lanes.zipIdx).map fun (e, i) => ⟨e.1, ⟨i, e.2⟩⟩
+  let n := CR.Index.fromList id ls
+  let E := CR.Assign.envOf (exactGeo tol tr D) n
+  pure <| Json.arr (steps.map fun e => Json.arr #[intJ e.o, intJ e.t, setJ (E.cen e.o e.t), setJ (E.shp e.o e.t)]).toArray
+
 def handle (op : String) (a : Json) : P Json := do
   match op with
   | "run" =>
@@ -102,6 +163,7 @@ def handle (op : String) (a : Json) : P Json := do
     let n ← getNat a "tspan"
     let E := envOf lanelets os
     pure <| Json.arr (runOps E (stateJ lanelets os tmin n) St.init ops).toArray
+  | "geo" => geoHandle a
   | _ => throw s!"C07: unknown op {op}"
 
 end CR.Drv.C07
